@@ -93,6 +93,9 @@ where
     let slot: Arc<Mutex<Option<R>>> = Arc::new(Mutex::new(None));
     let slot2 = Arc::clone(&slot);
     let par = cpu_to_parallelism(conf.cpu);
+    // executions nest (a lane's run is itself the main task of an ambient execution): restore what the
+    // enclosing execution simulates when this one is over
+    let outer_par = set_parallelism(Parallelism::Std);
     OP_RETURNED.with(|c| c.set(false));
     let runner = shuttle::Runner::new(scheduler, cfg);
     let res = catch_unwind(AssertUnwindSafe(move || {
@@ -105,7 +108,7 @@ where
         });
     }));
     OP_RETURNED.with(|c| c.set(false));
-    let _ = set_parallelism(Parallelism::Std);
+    let _ = set_parallelism(outer_par);
     let failure = match res {
         Ok(()) => None,
         Err(p) => {
@@ -114,6 +117,85 @@ where
             Some(if ml.contains("deadlock") {
                 Failure::Deadlock(m)
             } else if ml.contains("exceeded max_steps") || ml.contains("max_steps") {
+                Failure::StepOverrun(m)
+            } else {
+                Failure::Panic(m)
+            })
+        }
+    };
+    let value = slot.lock().unwrap_or_else(std::sync::PoisonError::into_inner).take();
+    let log = log.lock().unwrap_or_else(std::sync::PoisonError::into_inner).clone();
+    ExecReport { value, failure, log }
+}
+
+/// The ambient execution. A lane's `run` drives graaf's *sequential* API directly and starts one
+/// scheduled execution (`run_exec`) per configuration for the operations that are threaded today. Which
+/// functions are threaded is a property of the tree under test, not of this harness: a function that a
+/// later change parallelises through the seam must meet a scheduler and a simulated CPU count wherever
+/// the harness happens to call it, instead of failing with "Shuttle primitive used outside an
+/// execution". So the whole of `run` is the main task of one more execution whose CPU count and
+/// schedule are a pure function of the scenario (replay files need nothing extra); `run_exec` nests
+/// inside it.
+pub fn ambient_conf(scenario_digest: u64) -> Conf {
+    let mut rng = vmodel::rng::Rng::new(vmodel::rng::mix(&[scenario_digest, 0xA3B1_E47A]));
+    let cpu = match rng.below(12) {
+        0 => None,
+        1 => Some(1),
+        2 | 3 => Some(16),
+        4 => Some(*rng.pick(&[17, 31, 32, 33, 64, 128, 255])),
+        _ => Some(rng.range(2, 16)),
+    };
+    let seed = rng.next_u64();
+    let kind = match rng.below(8) {
+        0..=3 => SchedKind::Random,
+        4 => SchedKind::Sticky { switch: 100 },
+        5 => SchedKind::Pct { depth: rng.range(1, 4) as u32, est_steps: 64 },
+        6 => SchedKind::RoundRobin,
+        _ => SchedKind::NewestFirst,
+    };
+    Conf { cpu, sched: SchedSpec { kind, seed }, trace: None }
+}
+
+/// Call `f` with the simulated CPU count `cpu` (inside the ambient execution, which schedules whatever
+/// workers `f` starts).
+pub fn with_cpu<T>(cpu: Cpu, f: impl FnOnce() -> T) -> T {
+    let prev = set_parallelism(cpu_to_parallelism(cpu));
+    let r = f();
+    let _ = set_parallelism(prev);
+    r
+}
+
+pub fn run_ambient<R: Send + 'static>(conf: &Conf, f: impl FnOnce() -> R + Send + 'static) -> ExecReport<R> {
+    let cell = Mutex::new(Some(f));
+    let log = Arc::new(Mutex::new(ExecLog::default()));
+    let scheduler = SimScheduler::new(conf.sched.clone(), None, Arc::clone(&log));
+    let mut cfg = shuttle::Config::new();
+    cfg.stack_size = 64 << 20;
+    cfg.failure_persistence = shuttle::FailurePersistence::None;
+    cfg.max_steps = shuttle::MaxSteps::FailAfter(MAX_STEPS);
+    cfg.silence_warnings = true;
+    let slot: Arc<Mutex<Option<R>>> = Arc::new(Mutex::new(None));
+    let slot2 = Arc::clone(&slot);
+    let par = cpu_to_parallelism(conf.cpu);
+    let outer_par = set_parallelism(Parallelism::Std);
+    let runner = shuttle::Runner::new(scheduler, cfg);
+    let res = catch_unwind(AssertUnwindSafe(move || {
+        let _ = runner.run(move || {
+            let _ = set_parallelism(par);
+            let f = cell.lock().unwrap().take().expect("the ambient execution runs once");
+            let r = f();
+            *slot2.lock().unwrap() = Some(r);
+        });
+    }));
+    let _ = set_parallelism(outer_par);
+    let failure = match res {
+        Ok(()) => None,
+        Err(p) => {
+            let m = payload_message(&*p);
+            let ml = m.to_lowercase();
+            Some(if ml.contains("deadlock") {
+                Failure::Deadlock(m)
+            } else if ml.contains("max_steps") {
                 Failure::StepOverrun(m)
             } else {
                 Failure::Panic(m)
